@@ -729,6 +729,7 @@ func (ndb *nodeDB) deleteVersionsTo(toVersion int64) error {
 	if legacyLatestVersion >= first {
 		if err := ndb.deleteLegacyVersions(legacyLatestVersion); err != nil {
 			ndb.logger.Error("Error deleting legacy versions", "err", err)
+			return err
 		}
 		// NOTE: When pruning is broken for legacy versions we need to find the
 		// latest non legacy version in the store
